@@ -96,7 +96,7 @@ def audit_native(ctx, src, name, runtime, charsigned):
 def opcases(ctx, objdir, runtime):
     progs = two_dummy_progs(ctx)
     if ctx.quick:
-        r = ctx.tlc("OpCases", "MC_OpCases_quick.cfg", workers=16, env={"C_PROGS": progs, "OPCASES_PART": ctx.seed % 24}, timeout=900)
+        r = ctx.tlc("OpCases", "MC_OpCases_quick.cfg", workers=16, env={"C_PROGS": progs, "OPCASES_PART": ctx.seed % 16}, timeout=900)
     else:
         r = ctx.tlc("OpCases", "MC_OpCases_thorough.cfg", workers=16, env={"C_PROGS": progs, "OPCASES_PART": 0}, timeout=3000, heap="6g")
     if not r.ok:
